@@ -69,6 +69,9 @@ pub struct SinkSc {
     /// not exist, 3 the "directory" is a regular file, 4 the target file exists with longer content
     #[serde(default)]
     pub fs: u8,
+    /// overrides given to the `Man` builder (title, section, date, source, manual); empty = none
+    #[serde(default)]
+    pub man_meta: Vec<String>,
 }
 
 #[derive(Clone, Copy, PartialEq)]
@@ -82,6 +85,23 @@ pub struct SinkSim(pub Which);
 // ------------------------------------------------------------------------------------------
 // running the generators
 
+thread_local! {
+    /// builder overrides applied to every `Man` made while a scenario runs (set by `exec_sink`)
+    static MAN_META: std::cell::RefCell<Vec<String>> = const { std::cell::RefCell::new(Vec::new()) };
+}
+
+fn new_man(cmd: Command) -> clap_mangen::Man {
+    let m = clap_mangen::Man::new(cmd);
+    MAN_META.with(|mm| {
+        let mm = mm.borrow();
+        if mm.len() == 5 {
+            m.title(mm[0].clone()).section(mm[1].clone()).date(mm[2].clone()).source(mm[3].clone()).manual(mm[4].clone())
+        } else {
+            m
+        }
+    })
+}
+
 fn run_generator(g: Gen, cmd: &mut Command, bin: &str, man_path: &[String], w: &mut dyn Write) -> std::io::Result<()> {
     match g {
         Gen::Bash => clap_complete::aot::generate(Shell::Bash, cmd, bin, w),
@@ -92,7 +112,7 @@ fn run_generator(g: Gen, cmd: &mut Command, bin: &str, man_path: &[String], w: &
         Gen::Nushell => clap_complete::aot::generate(clap_complete_nushell::Nushell, cmd, bin, w),
         Gen::Man => {
             if man_path.is_empty() {
-                return clap_mangen::Man::new(cmd.clone()).render(w);
+                return new_man(cmd.clone()).render(w);
             }
             // one page per subcommand, as clap_mangen::generate_to produces them: build the root, then
             // hand each subcommand to Man::new
@@ -105,7 +125,7 @@ fn run_generator(g: Gen, cmd: &mut Command, bin: &str, man_path: &[String], w: &
                     None => break,
                 }
             }
-            return clap_mangen::Man::new(cur.clone()).render(w);
+            return new_man(cur.clone()).render(w);
         }
     }
     Ok(())
@@ -496,7 +516,9 @@ fn man_checks(level: &CmdSpec, inherited_globals: &[&ArgSpec], page: &str) -> Op
         }
     }
     for s in &level.subs {
-        let listed = plain.lines().any(|l| l.ends_with(&format!("-{}(1)", s.name)));
+        // `<parent>-<name>(<section>)`: the section may have been overridden through the Man builder
+        let tag = format!("-{}(", s.name);
+        let listed = plain.lines().any(|l| l.ends_with(')') && l.rfind(&tag).map(|i| !l[i + tag.len()..l.len() - 1].contains(['(', ' '])).unwrap_or(false));
         if s.has(CmdSetting::Hide) {
             if listed {
                 return Some(("hidden-shown", "subcommand".into(), format!("hidden subcommand {} is listed in the man page", s.name)));
@@ -1018,6 +1040,14 @@ impl Engine for SinkSim {
         if self.0 == Which::C19 && rng.chance(1, 3) {
             hostile_control_slots(rng, &mut spec);
         }
+        let man_meta: Vec<String> = if self.0 == Which::C19 && rng.chance(1, 4) {
+            const META: &[&str] = &["", "1", "8", "MYTOOL", "2026-10-02", "my tool 1.0", "User Commands", "x\n.so /etc/passwd", "a\n'ne 1", "T\n.SH INJECTED", "q \"uoted", "\\", "line\n"];
+            // (the section also ends up inside the text of every SUBCOMMANDS entry: kept to one line so that
+            // the listing oracle can recognise an entry)
+            (0..5).map(|i| if i == 1 { rng.pick(&["1", "8", "3p", "n"]).to_string() } else { rng.pick(META).to_string() }).collect()
+        } else {
+            Vec::new()
+        };
         let plan = gen_plan(rng, 40, 3000, true);
         let mut queries = Vec::new();
         if gen == Gen::Bash {
@@ -1039,6 +1069,7 @@ impl Engine for SinkSim {
             plan,
             queries,
             fs: if rng.chance(1, 4) { rng.urange(1, 4) as u8 } else { 0 },
+            man_meta,
         }
     }
 
@@ -1082,6 +1113,18 @@ impl Engine for SinkSim {
             s.fs = 0;
             c.push(s);
         }
+        if !sc.man_meta.is_empty() {
+            let mut s = sc.clone();
+            s.man_meta.clear();
+            c.push(s);
+            for i in 0..5 {
+                if sc.man_meta[i] != "1" {
+                    let mut s = sc.clone();
+                    s.man_meta[i] = "1".into();
+                    c.push(s);
+                }
+            }
+        }
         for i in 0..sc.queries.len() {
             let mut s = sc.clone();
             s.queries.remove(i);
@@ -1111,6 +1154,7 @@ fn exec_sink(which: Which, sc: &SinkSc, log: &mut Log, out: &mut Outcome) {
         return;
     }
     let bin = sc.spec.name.clone();
+    MAN_META.with(|mm| *mm.borrow_mut() = if g == Gen::Man { sc.man_meta.clone() } else { Vec::new() });
     let (level, man_names) = if g == Gen::Man { spec_at(&sc.spec, &sc.man_path) } else { (&sc.spec, vec![]) };
     let mut shape = ShapeHasher::new();
     shape.add(sc.spec.feature_bits());
@@ -1297,7 +1341,7 @@ fn exec_sink(which: Which, sc: &SinkSc, log: &mut Log, out: &mut Outcome) {
 
     // ---- the individual section renderers of Man go through the same sink contract
     if g == Gen::Man && man_names.is_empty() {
-        let man = match catch(|| clap_mangen::Man::new(build_cmd(&sc.spec))) {
+        let man = match catch(|| new_man(build_cmd(&sc.spec))) {
             Ok(m) => m,
             Err(_) => return,
         };
@@ -1390,7 +1434,13 @@ fn exec_sink(which: Which, sc: &SinkSc, log: &mut Log, out: &mut Outcome) {
             Ok(reqs) => {
                 let twin = twin_spec(&sc.spec);
                 let mut tc = build_cmd(&twin);
+                MAN_META.with(|mm| {
+                    for x in mm.borrow_mut().iter_mut() {
+                        *x = twin_text(x);
+                    }
+                });
                 let (tr, _, _, _) = generate_with(g, &mut tc, &bin, &man_names, &perfect);
+                MAN_META.with(|mm| *mm.borrow_mut() = sc.man_meta.clone());
                 out.comparisons += 1;
                 if let GenOut::Ok(tb) = tr {
                     let tt = String::from_utf8_lossy(&tb).to_string();
